@@ -422,3 +422,9 @@ pub assume_specification<T>[Option::<T>::or](a: Option<T>, b: Option<T>) -> (r: 
     ensures r == (if a is Some { a } else { b });
 pub assume_specification<T>[<Option<T> as core::convert::From<T>>::from](t: T) -> (r: Option<T>)
     ensures r == Some(t);
+pub assume_specification<T, E, U, F>[Result::<T, E>::and_then](a: Result<T, E>, f: F) -> (r: Result<U, E>)
+    where F: FnOnce(T) -> Result<U, E> + core::marker::Destruct,
+    requires a is Ok ==> f.requires((a->Ok_0,)),
+    ensures
+        a is Ok ==> f.ensures((a->Ok_0,), r),
+        a is Err ==> r is Err && r->Err_0 == a->Err_0;
